@@ -1043,7 +1043,7 @@ func hTest(t *testing.T, prop string) {
 		"real Manager/controller and local endpoints in a testing/synctest bubble; each history is run once from scratch (violations are re-run 5 times)",
 		"a cycle whose waiting flush fails (session halted for safety) ends the history")
 	dir := scratchDir(t)
-	deadline := vr.Deadline(50*time.Second, 9*time.Minute).Unix()
+	deadline := scaledDeadline(50*time.Second, 9*time.Minute).Unix()
 	n := vr.Workers()
 	var jobs []swJob
 	for i := 0; i < n; i++ {
